@@ -547,6 +547,8 @@ class Interp(object):
         return Top('binop %s' % op)
 
     def term_add(self, t, k):
+        if k == 0:
+            return t
         w = t.w
         if t.kind == 'affine':
             base, c = t.args
